@@ -20,6 +20,13 @@ Proof.
   rewrite (xsd_kind _ _ H pfx), H, P. reflexivity.
 Qed.
 
+Theorem entry_path_datetime_print : forall c m t pfx l, lookup l xsd_parsers = Some "datetime" -> valid_dt t = true ->
+  auto_conv c m (ALit (iso_print t) (Some (mkQn (mkNs pfx xsd_uri) l)) None) = Done m (Some (VTime t)).
+Proof.
+  intros c m t pfx l H V.
+  exact (entry_path_datetime c m (iso_print t) t pfx l H (parse_datetime_print t V)).
+Qed.
+
 Theorem json_value_roundtrip_time : forall c m t, Builtins m -> valid_dt t = true ->
   reinsert c m (VTime t) = Done m (Some (VTime t)).
 Proof.
@@ -63,7 +70,7 @@ Theorem xml_value_time : forall ft c m a t, Builtins m -> plain_attr a ->
   valid_dt t = true ->
   xml_reinsert ft c m a (VTime t) = Done m (Some (VTime t)).
 Proof.
-  intros ft c m a t B [Q [T L]] V. unfold xml_reinsert, xml_emit. cbn [value_str].
+  intros ft c m a t B [Q [T L]] V. unfold xml_reinsert, xml_emit. norm_always. cbn [value_str].
   rewrite Q, L, T, (iso_print_not_prov t V). cbn [andb negb].
   replace ((ft || true || is_tlv a) && true && true && true && true)%bool with true
     by (destruct ft, (is_tlv a); reflexivity).
@@ -79,7 +86,7 @@ Theorem xml_value_formal_time : forall ft c m a t, is_qname_attr a = false -> is
   valid_dt t = true ->
   xml_reinsert ft c m a (VTime t) = Done m (Some (VTime t)).
 Proof.
-  intros ft c m a t Q T V. unfold xml_reinsert, xml_emit. cbn [value_str].
+  intros ft c m a t Q T V. unfold xml_reinsert, xml_emit. norm_always. cbn [value_str].
   rewrite Q, T, (iso_print_not_prov t V). cbn [andb negb].
   match goal with |- context [if ?cnd then (None, iso_print t) else (None, iso_print t)] => destruct cnd end;
     unfold xml_read; cbn [x_text x_type x_lang x_ref];
